@@ -26,7 +26,9 @@ def payload(rng):
 
 def build(rng):
     nimg = rng.randint(0, 6)
-    imgs = {f'image{k}.{rng.choice(["png", "jpeg", "emf", "bin"])}': payload(rng) for k in range(nimg)}
+    # file names are taken literally: a percent sequence, a space or a plus sign in a member name is part of the name
+    stem = lambda k: rng.choice(['image%d' % k] * 5 + ['chart%%20%d' % k, 'my image %d' % k, 'a+b%d' % k, '100%%25-%d' % k])
+    imgs = {f'{stem(k)}.{rng.choice(["png", "jpeg", "emf", "bin"])}': payload(rng) for k in range(nimg)}
     names = list(imgs)
     def pic(part_rels):
         kind = rng.random()
